@@ -181,7 +181,9 @@ def r3_bytes(toks, log, where):
                 if m:
                     new = "vx_%s_from_%s_bytes" % (t.text, m.group(1))
                     log.append(("R3", where, "%s::%s" % (t.text, toks[j2].text), new))
-                    out.extend(syn(new))
+                    s_ = syn(new)
+                    s_[0].start = t.start
+                    out.extend(s_)
                     k = j2 + 1
                     continue
         out.append(t)
@@ -285,7 +287,8 @@ def sub_tokens(toks, pat, repl, tag, log, where, count=1):
         out.extend(toks[prev:a])
         s = syn(repl)
         if s:
-            s[0].start = toks[a].start
+            orig = [x.start for x in toks[a:b + 1] if x.start >= 0]
+            s[0].start = orig[0] if orig else -1
         out.extend(s)
         prev = b + 1
     out.extend(toks[prev:])
